@@ -156,14 +156,14 @@ pub fn record(seed: u64, tier: &str, out: &str) {
     cube!(i64, t, "i64", 12);
     cube!(i32, t, "i32", if thorough { 12 } else { 8 });
     cube!(i128, t, "i128", if thorough { 12 } else { 6 });
-    crttab!(i64, t, "i64", if thorough { 24 } else { 14 });
+    crttab!(i64, t, "i64", if thorough { 24 } else { 18 });
     if thorough {
         crttab!(i32, t, "i32", 12);
         crttab!(i128, t, "i128", 12);
     }
     let tables = t.events;
     // sampled large operands
-    let n = if thorough { 6000 } else { 900 };
+    let n = if thorough { 6000 } else { 2400 };
     for k in 0..n {
         match k % 6 {
             0 | 1 => {
